@@ -312,21 +312,22 @@ spec fn zero_regs(lg: u8) -> Seq<u8> { Seq::new(pow2(lg as nat), |i: int| 0u8) }
 impl Array4 {
     uninterp spec fn regs(&self) -> Seq<u8>;
     uninterp spec fn lg(&self) -> u8;
-    uninterp spec fn wf(&self) -> bool;
+    // (named wf2 as in unit hll_array4, where new / update are verified: the full invariant including the cur_min counter)
+    uninterp spec fn wf2(&self) -> bool;
     #[verifier::external_body]
     fn new(lg_config_k: u8) -> (r: Self)
       requires 4 <= lg_config_k <= 21
-      ensures r.wf(), r.lg() == lg_config_k, r.regs() == zero_regs(lg_config_k)
+      ensures r.wf2(), r.lg() == lg_config_k, r.regs() == zero_regs(lg_config_k)
     { unimplemented!() }
     #[verifier::external_body]
     fn update(&mut self, coupon: u32)
-      requires old(self).wf()
-      ensures final(self).wf(), final(self).lg() == old(self).lg(), final(self).regs() == reg_apply(old(self).regs(), coupon, old(self).lg())
+      requires old(self).wf2()
+      ensures final(self).wf2(), final(self).lg() == old(self).lg(), final(self).regs() == reg_apply(old(self).regs(), coupon, old(self).lg())
     { unimplemented!() }
     // writes the float accumulator of the estimator only
     #[verifier::external_body]
     fn set_hip_accum(&mut self, value: f64)
-      ensures final(self).wf() == old(self).wf(), final(self).lg() == old(self).lg(), final(self).regs() == old(self).regs()
+      ensures final(self).wf2() == old(self).wf2(), final(self).lg() == old(self).lg(), final(self).regs() == old(self).regs()
     { unimplemented!() }
 }
 impl Array6 {
@@ -401,7 +402,7 @@ spec fn mode_wf(m: Mode, lg_k: u8) -> bool {
         Mode::List { list, hll_type } => list.wf() && list.container.lg_size == 3 && list.container.coupons@.len() == 8 && list.container.len < 8,
         // a set is grown / promoted as soon as its load exceeds 3/4; it never outgrows 2^(lg_k - 3) slots
         Mode::Set { set, hll_type } => set.wf() && lg_k >= 8 && 5 <= set.container.lg_size <= lg_k - 3 && 4 * set.container.len <= 3 * set.container.coupons@.len(),
-        Mode::Array4(a) => a.wf() && a.lg() == lg_k,
+        Mode::Array4(a) => a.wf2() && a.lg() == lg_k,
         Mode::Array6(a) => a.wf() && a.lg() == lg_k,
         Mode::Array8(a) => a.wf() && a.lg() == lg_k,
     }
@@ -465,6 +466,7 @@ impl HllSketch {
     fn new ( lg_config_k : u8 , hll_type : HllType ) -> ( r : Self ) ensures
 /*@C17.hll.lg_k_range_validated*/ 4 <= lg_config_k <= 21 ,
 /*@C02.sketch_init*/ r . wf ( ) , r . models ( ISet :: < u32 > :: empty ( ) ) , r . lg_config_k == lg_config_k , mode_type ( r . mode ) == hll_type ,
+/*@C02.sketch_init_list*/ r . mode is List ,
 /*@C18.hll.sparse_size*/ mode_sparse_bound ( r . mode , r . lg_config_k ) , {
 vx_documented_panic ( ( 4 ..= 21 ) . contains ( & lg_config_k ) ) ;
 let list = List :: default ( ) ;
@@ -609,7 +611,7 @@ proof {
 lemma_cset_empty ( vx_s1 @ . take ( 0 ) ) ;
 lemma_regs_zero ( lg_config_k ) ;
 }
-while vx_i1 < vx_s1 . len ( ) invariant vx_s1 @ == nz ( container . coupons @ ) , vx_i1 <= vx_s1 @ . len ( ) , array . wf ( ) , array . lg ( ) == lg_config_k ,
+while vx_i1 < vx_s1 . len ( ) invariant vx_s1 @ == nz ( container . coupons @ ) , vx_i1 <= vx_s1 @ . len ( ) , array . wf2 ( ) , array . lg ( ) == lg_config_k ,
 /*@C02.promote.to_array*/ is_regs_of ( array . regs ( ) , cset ( vx_s1 @ . take ( vx_i1 as int ) ) , lg_config_k ) , decreases vx_s1 @ . len ( ) - vx_i1 {
 proof {
 lemma_nz_nonzero ( container . coupons @ , vx_i1 as int ) ;
